@@ -13,7 +13,7 @@ EXPLANATION = ("each call compared with the Gallina model (the cheap outputs aga
                "the full run, for ALL inputs.")
 ASSUMPTIONS = ["non-negative integers below 2^53; ILP values <= 200"]
 CASE_TIMEOUT = 120
-PART = ["greedy", "roundrobin", "multifit", "kk", "cg", "ckk", "snp", "rnp", "dp", "ilp", "cbldm"]
+PART = ["greedy", "roundrobin", "bidir", "multifit", "kk", "cg", "ckk", "snp", "rnp", "dp", "ilp", "cbldm"]
 PACK = ["ff", "ffd", "bf", "bfd", "bc", "cover_dec", "cover_23", "cover_34"]
 OUTS = ["pst", "pas", "partition", "sums", "sorted", "largest", "smallest", "extreme", "difference", "bincount"]
 OIDX = {"sums": 0, "largest": 1, "smallest": 2, "extreme": 3, "sorted": 4, "difference": 5, "bincount": 6}
